@@ -26,6 +26,7 @@ META["explanation"] += " " + '(SB-eqlen, shared with C15) key equality is length
 META["explanation"] += " " + '(SB-keypair) a key object is forwarded as (First(), Length()) of the same object, never as First() alone. PR-rehash additionally: copyTable records as size the counter stepped once per constructed item; after a range Dispose of items every path rebuilds or clears the chains.'
 META["explanation"] += " " + "PR-capacity's guard form is decided on the CFG: the insert is dominated by the test Size() == Capacity() and reached over its false edge or, over its true edge, only after expand(). (HC-confirm) an equality with a stored hash decides a match only together with a key comparison."
 META["explanation"] += " " + '(SB-scan) every pointer scan over a table ends at base + Size() of the same table. (PR-wipe) the bucket array is cleared over Capacity() entries. PR-rename additionally: on every path to `return true` the item received the new key and the new hash (must-analysis).'
+META["explanation"] += " " + '(PR-resize) a member that gives a table a computed size rebuilds the bucket chains on every path before it returns.'
 
 HT = "Qentem::HashTable::"
 
@@ -448,6 +449,8 @@ def run(ctx):
     rules.append(rule_equal_lengths(ctx, m))
     rules.append(rule_scan_extent(ctx, m))
     rules.append(rule_bucket_wipe(ctx, m))
+    from rules.common import rule_size_rebuild
+    rules.append(rule_size_rebuild(ctx, m))
     return rules
 
 
